@@ -6,7 +6,10 @@ from vt.gens import frames as F
 from vt.gens import strings as S
 
 SQLTYPES = {'integer': 'int64', 'bigint': 'int64', 'real': 'float64', 'double': 'float64', 'text': 'str_obj',
-            'varchar': 'str_obj', 'boolean': 'boolean', 'datetime': 'dt_s'}
+            'varchar': 'str_obj', 'boolean': 'boolean', 'datetime': 'dt_s',
+            # other spellings of the same six families that tdda's type table knows
+            'tinyint': 'int64', 'smallint': 'int64', 'int': 'int64', 'INTEGER': 'int64', 'float': 'float64', 'numeric': 'float64',
+            'bool': 'boolean', 'char': 'str_obj', 'nvarchar': 'str_obj', 'TEXT': 'str_obj', 'timestamp': 'dt_s'}
 COLNAMES = ['a', 'b c', 'näme', '日本', 'c7', 'order', 'select', 'Mixed', 'x.y', 'tab\tname', "q'r", 'under_score']
 HOSTILE_TEXT = ["it's", '"quoted"', 'back\\slash', '100%', 'a_b', '', 'naïve', '日本語', "''", 'x\ny', ' lead', 'trail ',
                 "a'b\"c", '\\', '%', '_', 'null', 'NULL', "';--", 'tab\tx', 'é', 'a' * 40]
